@@ -80,6 +80,15 @@ def classify_unserializable(h):
         for o in t["ops"]:
             if o["op"] in ("Add", "AddIfNotExist", "Update", "Upsert", "Remove") and o["ok"]:
                 writers.setdefault((o["s"], o["k"]), set()).add(t["t"])
+    # a write that was refused (returned false) although nothing in the history can make its key exist / be absent
+    for t in h["txns"]:
+        for o in t["ops"]:
+            if o["op"] in ("Add", "AddIfNotExist", "Upsert") and not o["ok"]:
+                key = (o["s"], o["k"])
+                earlier_own = any(p2 is not o and (p2["s"], p2["k"]) == key and p2["op"] in ("Add", "AddIfNotExist", "Upsert", "Update") and p2["ok"]
+                                  for p2 in t["ops"][:t["ops"].index(o)])
+                if key not in init and not earlier_own and not (writers.get(key, set()) - {t["t"]}):
+                    return "write-refused-without-cause:%s" % o["op"]
     for t in h["txns"]:
         per = {}
         for o in t["ops"]:
